@@ -171,8 +171,9 @@ class C19(Check):
     PROFILE = {"p_lazy": 1.0, "allow_frozen": False, "allow_class_dnc": False, "n_attrs": (2, 5), "allow_new_shapes": True, "p_sub": 0.6}
     RULE = ("one evaluation = one simulated run: a generated lazily-bootstrapped class (plus optional spec/plain subclass), "
             "2-3 threads each doing a first use + construction + helper call under one seeded schedule (bounded "
-            "pre-emptions d<=3 at library line events biased to the bootstrap code, PCT-like priorities, or random "
-            "switching). Non-trivial = at least one pre-emptive switch happened while another thread was inside "
+            "pre-emptions d<=3 at library line events biased to the bootstrap code, PCT-like priorities, random "
+            "switching, pre-emption only at lock acquisitions / releases, or d<=4 targets 'thread t at its n-th visit of "
+            "line L / lock operation'). Non-trivial = at least one pre-emptive switch happened while another thread was inside "
             "bootstrap-related code; distinct_nontrivial = distinct (first-use tuple, sorted pre-emption sites).")
     COMPONENTS_STUBBED = Check.COMPONENTS_STUBBED + [
         "OS thread scheduler (baton passing; pre-emption at sys.settrace line events)",
@@ -220,7 +221,8 @@ class C19(Check):
         if not attrs or src.chance(0.2):
             return None
         a = src.choice(attrs)
-        if src.chance(0.3):
+        if src.chance(0.3) and a["default"][0] != "none":
+            # (resetting an attribute that has neither a default nor a value fails in the eager reference too: wasted run)
             return {"m": f"reset_{a['name']}", "args": []}
         return {"m": f"with_{a['name']}", "args": [good_value(src, a["kind"], small=True)]}
 
